@@ -4,6 +4,7 @@
 //! /repo's working tree with `--cfg mainline_verif`) on generated operation sequences and writes
 //! `ops.txt` (line protocol for the Lean driver), `impl.out` (the implementation's canonical
 //! answers) and `stats.json` (distribution, samples and oracle violations).
+mod sim;
 mod streams;
 mod util;
 
@@ -27,6 +28,9 @@ fn main() {
         "hash" => streams::hash::run(&mut out, seed, thorough, replay),
         "id" => streams::id::run(&mut out, seed, thorough, replay),
         "closest" => streams::closest::run(&mut out, seed, thorough, replay),
+        "socket" => streams::socket::run(&mut out, seed, thorough, replay),
+        "putq" => streams::putq::run(&mut out, seed, thorough, replay),
+        "net" => streams::net::run(&mut out, seed, thorough, replay),
         "codec" => streams::codec::run(&mut out, seed, thorough, replay),
         "api" => streams::api::run(&mut out, seed, thorough, replay),
         "server" => streams::server::run(&mut out, seed, thorough, replay),
